@@ -24,7 +24,7 @@
      - the end of the text: nothing, a comment without line separator, or a
        closing `%%` followed by white space.
 
-   [print_spec lay sp] is the text; [spec_of pe lay sp] is the parser state the
+   [print_spec lay sp] is the text; [spec_of pe iw lay sp] is the parser state the
    text denotes: rules in order (regex with its lex escapes rewritten
    — [map_escapes] of Spec.v —, start-state and target ids = position of the
    name in INITIAL :: declared names, name_span = where the name stands in the
@@ -255,23 +255,23 @@ Definition target_of (names : list text) (t : option (text * op)) : option (nat 
   match t with Some (s, o) => Some (index_of s names, o) | None => None end.
 
 (* the rule a line that starts at [off] denotes *)
-Definition rule_of (pe : bool) (names : list text) (off : nat) (rl : rline_lay) (r : arule) : rule :=
+Definition rule_of (pe iw : bool) (names : list text) (off : nat) (rl : rline_lay) (r : arule) : rule :=
   {| r_name := a_name r;
      r_name_span :=
        match a_name r with
        | Some n => let p := off + byte_len (rline_head rl r) + 1 in (p, p + byte_len n)
        | None => let p := off + byte_len (rline_re_field rl r) in (p, p)
        end;
-     r_re_str := map_escapes pe (a_re r);
+     r_re_str := map_escapes iw pe (a_re r);
      r_start_states := map (fun n => index_of n names) (a_pre r);
      r_target := target_of names (a_target r) |}.
 
-Fixpoint rules_of (pe : bool) (names : list text) (off : nat) (rs : list (arule * rline_lay)) : list rule :=
+Fixpoint rules_of (pe iw : bool) (names : list text) (off : nat) (rs : list (arule * rline_lay)) : list rule :=
   match rs with
   | [] => []
   | (r, rl) :: rs' =>
-      rule_of pe names off rl r
-      :: rules_of pe names (off + byte_len (print_rline rl r ++ print_ritems (rl_after rl))) rs'
+      rule_of pe iw names off rl r
+      :: rules_of pe iw names (off + byte_len (print_rline rl r ++ print_ritems (rl_after rl))) rs'
   end.
 
 Definition initial_start_state : start_state :=
@@ -280,8 +280,8 @@ Definition initial_start_state : start_state :=
 Definition states_of_spec (lay : layout) (sp : aspec) : list start_state :=
   initial_start_state :: states_of (byte_len (print_ditems (l_pre lay))) 1 (l_dlines lay) (a_states sp).
 
-Definition spec_of (pe : bool) (lay : layout) (sp : aspec) : pstate :=
-  {| rules := rules_of pe (state_names sp)
+Definition spec_of (pe iw : bool) (lay : layout) (sp : aspec) : pstate :=
+  {| rules := rules_of pe iw (state_names sp)
                 (byte_len (print_decl_section lay sp ++ print_ritems (l_gap0 lay)))
                 (combine (a_rules sp) (l_rlines lay));
      start_states := states_of_spec lay sp |}.
